@@ -63,6 +63,12 @@ def body(rec_ids, phased=True, gt_suffix=''):
     for r in rec_ids:
         rec = RECORDS[r]
         gts = rec[8] if phased else UNPHASED_GT[r]
+        if gt_suffix == 'mixed':
+            # FORMAT GT:DP:GQ where one sample carries all sub-fields and the other has dropped the trailing ones (valid VCF):
+            # a sample field without ':' next to one of nine characters; which sample is the bare one alternates by record
+            samples = [g + ':12:99' if (i + r) % 2 == 0 else g for i, g in enumerate(gts)]
+            lines.append('\t'.join(list(rec[:7]) + [info_text(rec[7]), 'GT:DP:GQ'] + samples))
+            continue
         lines.append('\t'.join(list(rec[:7]) + [info_text(rec[7]), 'GT' + (':DP' if gt_suffix else '')] +
                                [g + gt_suffix for g in gts]))
     return ('\n'.join(lines) + '\n').encode()
@@ -255,7 +261,7 @@ def run_single(res, deadline):
                     return
                 variants = [(True, '')]
                 if b in ('VCFMatrixBuffer', 'VCFBuffer2'):
-                    variants += [(False, ''), (True, ':12'), (False, ':7')]
+                    variants += [(False, ''), (True, ':12'), (False, ':7'), (False, 'mixed'), (True, 'mixed')]
                 elif b in ('PhasedVCFMatrixBuffer', 'PhasedHaplotypeVCFMatrixBuffer'):
                     variants += [(True, ':12')]
                 for phased, suffix in variants:
